@@ -695,10 +695,15 @@ class RecordContextMatcher:
                         raise InvalidOperation(
                             "Generator variable '{}' overwrites existing variable!".format(gen.target.id)
                         )
-                values = recursive_generator(node.generators[::-1])
-                for val in values:
-                    result = self.eval(node.elt)
-                    yield result
+                try:
+                    values = recursive_generator(node.generators[::-1])
+                    for val in values:
+                        result = self.eval(node.elt)
+                        yield result
+                finally:
+                    # The loop variables go out of scope, so the same name can be used by a following generator
+                    for gen in node.generators:
+                        self.data.pop(gen.target.id, None)
 
             return generator_expr()
 
